@@ -42,7 +42,7 @@ PROPS = {
     "C12": dict(
         level="fault_enumeration",
         level_text="for every workload, every call index k on each destination (write, seek, flush) fails one-shot, after a partial "
-                   "write, and persistently; each API call's result and whether the fault fired during it are validated by TLC against "
+                   "write, and persistently (failing seeks and flushes also with ErrorKind::Interrupted); each API call's result and whether the fault fired during it are validated by TLC against "
                    "the fault actions of the writer specification (failing call returns that error; failed finalize retryable: after "
                    "healing, finalize + drop leave the bytes of the undisturbed run; drop never panics); short writes for every chunk "
                    "size 1..9 and random schedules; TLC also explores every failing operation of every bounded history on the "
@@ -61,7 +61,7 @@ PROPS = {
     "C13": dict(
         level="fault_enumeration",
         level_text="every truncation length 0..len of the .shp (index intact / absent; sequential and random access) and of the .shx, "
-                   "every k over the reads and seeks a full traversal issues (shp and shx), every short-read chunk size 1..9 plus random "
+                   "every k over the reads and seeks a full traversal issues (shp and shx; failing seeks also as ErrorKind::Interrupted), every short-read chunk size 1..9 plus random "
                    "schedules, on real files of all 13 types; TLC evaluates the reader model ReadFile on the same truncated bytes and "
                    "the property's relation on the real outcome; the reader model itself is checked by TLC (T6_Truncation) on every "
                    "truncation of every file of the small codec scope",
@@ -375,3 +375,22 @@ PROPS = {
         rule="a case = one value or one call",
     ),
 }
+
+# sentences added to the level texts as the drivers grew (rounds 4 and 5 of the seeded changes, DESIGN 10.5)
+LEVEL_TEXT_ADDENDA = {
+    "C01": "; read-back also through the Iterator adaptors nth/count/last; a size-threshold sweep (serialised sizes on and next to powers of two); files on disk under lower-case, upper-case and dotted names",
+    "C02": "; destinations handed over with their cursor away from 0; record numbers and lengths after writes that failed cleanly",
+    "C03": "; every generated file is also read by path and through read_shapes; stored boxes that are all-zero or partly zero",
+    "C05": "; fault runs: a write that failed before emitting a byte must not count for the header box",
+    "C07": "; the same inputs as files on disk through ShapeReader::from_path and read_shapes",
+    "C17": "; by-path opens and reads are measured as well",
+    "C08": "; 1 100 pairs in one file (beyond any pre-allocation cap), in memory and by path; file names with upper-case extension and dotted stems",
+    "C09": "; histories may end with the writer going out of scope during the unwinding of a caller's panic; histories that reach 255/256/257/512 uncommitted records",
+    "C10": "; refused writes after 255/256/257/512 uncommitted records",
+    "C14": "; every layout also as a .shp/.shx pair on disk (from_path iteration and random access, read_shapes, read_shapes_as); an index of 1 500 entries",
+    "C16": "; one trace file concretises X/Y as neighbouring doubles (ends one or two ulps apart are open)",
+    "C18": "; in fault runs every write_shape that returned Ok must have emitted exactly one record frame announcing that shape's size",
+    "C19": "; routes: .shp header, .shx header, generic record, generic two-word record, typed record, typed two-word record",
+}
+for _k, _v in LEVEL_TEXT_ADDENDA.items():
+    PROPS[_k]["level_text"] = PROPS[_k]["level_text"] + _v
